@@ -57,6 +57,8 @@ type Contract struct {
 	Props     []string // properties this function's obligations serve (optional)
 	Fresh      bool    // `fresh`: the (first) result is an object allocated by this call
 	Ghost      string  // `ghosttrace p`: calls through the function-typed parameter p append their argument to the ghost sequence `trace` and answer vis(trace, arg)
+	Keywords   []string    // `keywords a b c`: exactly these string constants are compared with == in the function body
+	Synonyms   [][2]string // `synonyms a=b`: the comparisons with a and with b branch to the same code
 	FunctionOf string  // `function f`: the spec function f names the value this (deterministic) function returns
 	File      string
 	Line      int
@@ -75,7 +77,7 @@ type ContractSet struct {
 
 var clauseKeywords = map[string]bool{"func": true, "use": true, "requires": true, "ensures": true,
 	"assigns": true, "decreases": true, "loop": true, "invariant": true, "trusted": true,
-	"inline": true, "noinline": true, "unroll": true, "props": true, "function": true, "ghosttrace": true, "hide": true, "fresh": true}
+	"inline": true, "noinline": true, "unroll": true, "props": true, "function": true, "ghosttrace": true, "hide": true, "fresh": true, "keywords": true, "synonyms": true}
 
 func splitLabel(s string) (string, string) {
 	s = strings.TrimSpace(s)
@@ -156,6 +158,14 @@ func (cs *ContractSet) loadFile(path string) error {
 			cur.Fresh = true
 		case "ghosttrace":
 			cur.Ghost = rest
+		case "keywords":
+			cur.Keywords = append(cur.Keywords, strings.Fields(rest)...)
+		case "synonyms":
+			for _, f := range strings.Fields(rest) {
+				if ab := strings.SplitN(f, "=", 2); len(ab) == 2 {
+					cur.Synonyms = append(cur.Synonyms, [2]string{ab[0], ab[1]})
+				}
+			}
 		case "function":
 			cur.FunctionOf = rest
 		case "trusted":
